@@ -7,3 +7,16 @@ import "github.com/fatedier/frp/zzverif"
 func (c *TCPGroupCtl) ZZGuard()         { zzverif.Guard(c.groups, &c.mu, "TCPGroupCtl.groups") }
 func (c *HTTPGroupController) ZZGuard() { zzverif.Guard(c.groups, &c.mu, "HTTPGroupController.groups") }
 func (c *TCPMuxGroupCtl) ZZGuard()      { zzverif.Guard(c.groups, &c.mu, "TCPMuxGroupCtl.groups") }
+
+// ZZMembers returns the member names of an http group (nil if the group does not exist).
+func (c *HTTPGroupController) ZZMembers(group string) []string {
+	c.mu.Lock()
+	g := c.groups[group]
+	c.mu.Unlock()
+	if g == nil {
+		return nil
+	}
+	g.mu.RLock()
+	defer g.mu.RUnlock()
+	return append([]string(nil), g.pxyNames...)
+}
